@@ -1,8 +1,15 @@
 #!/bin/bash
-# Offline set-up: make sure hypothesis is importable by the repository's interpreter.
+# Offline set-up: make sure hypothesis (required) and atheris (optional engine of C10's fuzz sub-check) are
+# importable by the repository's interpreter; missing ones are installed from the wheelhouse into /verif/.deps.
 HERE="$(cd "$(dirname "${BASH_SOURCE[0]}")" && pwd)"
 PY="${TWV_PYTHON:-/venv/bin/python}"
-if "$PY" -c "import hypothesis" 2>/dev/null; then echo "hypothesis already importable"; exit 0; fi
-if PYTHONPATH="$HERE/.deps" "$PY" -c "import hypothesis" 2>/dev/null; then echo "hypothesis in .deps"; exit 0; fi
-"$PY" -m pip install --no-index --find-links /opt/veriftools/wheels --target "$HERE/.deps" hypothesis || exit 1
-PYTHONPATH="$HERE/.deps" "$PY" -c "import hypothesis; print('hypothesis', hypothesis.__version__)"
+need=""
+for pkg in hypothesis atheris; do
+  if ! PYTHONPATH="$HERE/.deps" "$PY" -c "import $pkg" 2>/dev/null; then need="$need $pkg"; fi
+done
+if [ -n "$need" ]; then
+  "$PY" -m pip install --quiet --no-index --find-links /opt/veriftools/wheels --target "$HERE/.deps" $need || true
+fi
+PYTHONPATH="$HERE/.deps" "$PY" -c "import hypothesis; print('hypothesis', hypothesis.__version__)" || exit 1
+PYTHONPATH="$HERE/.deps" "$PY" -c "import atheris; print('atheris available')" || echo "atheris not available: C10.fuzz will report fuzz-engine-unavailable"
+exit 0
